@@ -109,7 +109,7 @@ let handle ws = try (match ws with
      | "tri" -> o12 (i12tri x) (s12add (s12add x x) x)
      | "sqr" -> o12 (i12sqr x) (s12mul x x)
      | "inv" -> o12 (i12inv x) (s12inv x)
-     (* compositions that carry the non-canonical zero p from neg / conjugation into inv *)
+     (* compositions: neg / conjugation must hand inv a recognisable zero (regression guard for c2dbe37) *)
      | "invneg" -> o12 (i12inv (i12neg x)) (s12inv (s12neg x))
      | "invfrob6" -> o12 (i12inv (i12frobenius6 x)) (s12inv (s12frob (z_of_small 6) x))
      | "frob" -> o12 (i12frobenius x) (s12frob (z_of_small 1) x)
